@@ -15,9 +15,11 @@
   what the reference map returns.
 
   Node handles are identities of the forest, not of an ordered map: where a call returns a
-  node, the reference says WHICH one in terms of a `NodeView` of the state the call starts in
-  (`get_node` of that state, and the handle the next `new_*_node` hands out): "the node that
-  carried the key, if the reference map has the key; otherwise the node passed in".
+  node, `specRet` says WHICH one in terms of a `NodeView` (which node carries a key, and the
+  handle the next `new_*_node` hands out): "the node that carried the key, if the reference map
+  has the key; otherwise the node passed in".  In `C11_histories_returns` the node view is that
+  of the state the call starts in; Model/FmapNodes.lean makes it part of the reference state
+  (`RefState`), so that the reference runs on its own (`C11_histories_reference`).
 -/
 import XotModel.Model.FmapSpec2
 
